@@ -71,12 +71,14 @@ def spheres_model(n, dx=0.01, r=0.1, z=0.05, extra=()):
     return L
 
 
-def cluster_model(rng):
+def cluster_model(rng, solver=None, jac=None):
     from gen.enums import E
     n = rng.randint(5, 18)
-    extra = ["option solver %d" % rng.choice((E("mjSOL_PGS"), E("mjSOL_CG"), E("mjSOL_NEWTON"))),
+    solver = solver or rng.choice(("mjSOL_PGS", "mjSOL_CG", "mjSOL_NEWTON"))
+    jac = jac or rng.choice(("mjJAC_DENSE", "mjJAC_SPARSE", "mjJAC_AUTO"))
+    extra = ["option solver %d" % E(solver),
              "option cone %d" % rng.choice((E("mjCONE_PYRAMIDAL"), E("mjCONE_ELLIPTIC"))),
-             "option jacobian %d" % rng.choice((E("mjJAC_DENSE"), E("mjJAC_SPARSE"), E("mjJAC_AUTO")))]
+             "option jacobian %d" % E(jac)]
     if rng.random() < 0.3:
         extra.append("option disableflags %d" % E("mjDSBL_ISLAND"))
     if rng.random() < 0.3:
@@ -107,6 +109,26 @@ def cluster_model(rng):
             L += ["set %d type %d" % (h, E("mjGEOM_BOX")), "set %d size %r %r %r" % (h, rng.uniform(0.03, 0.1), rng.uniform(0.03, 0.1), rng.uniform(0.03, 0.1))]
         if rng.random() < 0.3:
             L += ["set %d condim %d" % (h, rng.choice((1, 4, 6)))]
+    return L
+
+
+def limits_model(n, solver, jac):
+    """a chain of hinges, every joint outside its range and with friction loss, no contacts: the efc / dual arrays are
+    large compared with the stack the constraint assembly needs, so the mj_makeY / mj_makeAR failures are reachable."""
+    from gen.enums import E
+    L = ["option timestep 0.002", "option solver %d" % E(solver), "option jacobian %d" % E(jac)]
+    h, parent = 0, 0
+    for k in range(n):
+        h += 1
+        b = h
+        L += ["body %d %d" % (b, parent), "set %d pos 0 0 %r" % (b, 1.5 if k == 0 else -0.2)]
+        h += 1
+        L += ["joint %d %d" % (h, b), "set %d type %d" % (h, E("mjJNT_HINGE")), "set %d axis 0 1 0" % h,
+              "set %d limited 1" % h, "set %d range 0.2 0.5" % h, "set %d frictionloss 0.1" % h]
+        h += 1
+        L += ["geom %d %d" % (h, b), "set %d type %d" % (h, E("mjGEOM_CAPSULE")), "set %d size 0.02 0.08 0" % h,
+              "set %d pos 0 0 -0.1" % h, "set %d contype 0" % h, "set %d conaffinity 0" % h]
+        parent = b
     return L
 
 
@@ -145,7 +167,7 @@ class Sweeper:
 
     def run(self, text, nsteps, trace, sizes):
         sizes = list(sizes)
-        w = max(1, min(self.workers, len(sizes) // 4 or 1))
+        w = max(1, min(self.workers, len(sizes) // 24 or 1))   # every worker start compiles the model again
         chunks = [sizes[i::w] for i in range(w)]
         res = []
         with cf.ThreadPoolExecutor(w) as ex:
@@ -198,12 +220,14 @@ def classify(status, rep):
     if d["fin"].get("canary") != "ok":
         return "CANARY", "c20:write-outside-allocation", "bytes outside an mju_malloc block were overwritten"
     if d["err"]:
-        m = re.search(r"stack overflow at (\w+)", d["err"])
+        m = re.search(r"stack overflow at (\w+), line (\d+)", d["err"])
         if m:
-            return "err:stack@" + m.group(1), None, d["err"]
+            return "err:stack@%s:%s" % (m.group(1), m.group(2)), None, d["err"]
         return "err:" + re.sub(r"[\d.]+", "#", re.sub(r"^-?\d+ ", "", d["err"]))[:60], None, d["err"]
     f = d["fin"]
-    return "ok:wC%d:wF%d" % (int(f.get("wC", "0")) > 0, int(f.get("wF", "0")) > 0), None, ""
+    # the site of the last refused allocation is part of the class, so the sweep bisects between "A failed" and "B failed"
+    site = "@%s:%d" % d["null"][-1][:2] if d["null"] else ""
+    return "ok:wC%d:wF%d%s" % (int(f.get("wC", "0")) > 0, int(f.get("wF", "0")) > 0, site), None, ""
 
 
 def adaptive_sizes(rng, need, npts):
@@ -217,7 +241,7 @@ def adaptive_sizes(rng, need, npts):
     return sorted(s)
 
 
-def sweep_model(ctx, sw, name, lines, nsteps, thorough_full, rng, fails, traces, hist, max_rounds=18):
+def sweep_model(ctx, sw, name, lines, nsteps, thorough_full, rng, fails, traces, hist, max_rounds=18, scan=66, budget=6000):
     """adaptive exhaustion sweep of one model; returns the number of sizes run."""
     text = model_text(name, lines)
     base = sw.run(text, nsteps, 0, [1 << 26])
@@ -230,6 +254,9 @@ def sweep_model(ctx, sw, name, lines, nsteps, thorough_full, rng, fails, traces,
 
     def run_sizes(sizes, trace):
         sizes = [s for s in sizes if s not in results and s >= 0]
+        sizes = sizes[:max(0, budget - len(results))] if not thorough_full else sizes
+        if not sizes:
+            return
         for sz, st, rep in sw.run(text, nsteps, trace, sizes):
             c, k, w = classify(st, rep)
             results[sz] = c
@@ -253,6 +280,14 @@ def sweep_model(ctx, sw, name, lines, nsteps, thorough_full, rng, fails, traces,
         if not mids:
             break
         run_sizes(mids[:400], 2)
+    # the outcome near a boundary is periodic in narena (the stack aligns absolute addresses): scan both sides of every
+    # boundary with a stride coprime to 8
+    ks = sorted(results)
+    near = set()
+    for a, b in zip(ks, ks[1:]):
+        if results[a] != results[b]:
+            near.update(range(a - scan, b + scan + 1, 3))
+    run_sizes(sorted(near)[:3000], 0)
     return len(results)
 
 
@@ -449,10 +484,13 @@ def run(ctx):
     cdir = os.path.join(common.CACHE, "c20")
     os.makedirs(cdir, exist_ok=True)
 
-    models = [("spheres14", spheres_model(14))]
-    nclu, ngen = (12, 16) if thorough else (3, 2)
+    models = [("spheres14", spheres_model(14)), ("limits-pgs-sparse", limits_model(12, "mjSOL_PGS", "mjJAC_SPARSE")),
+              ("limits-pgs-dense", limits_model(9, "mjSOL_PGS", "mjJAC_DENSE"))]
+    nclu, ngen = (12, 14) if thorough else (1, 1)
+    forced = [("mjSOL_PGS", "mjJAC_SPARSE"), ("mjSOL_PGS", "mjJAC_DENSE"), ("mjSOL_CG", "mjJAC_SPARSE")]
     for i in range(nclu):
-        models.append(("cluster%d" % i, cluster_model(rng)))
+        so, ja = forced[i] if i < len(forced) else (None, None)   # the dual (mj_makeY / mj_makeAR) paths are always covered
+        models.append(("cluster%d" % i, cluster_model(rng, so, ja)))
     for i in range(ngen):
         models.append(("gen%d" % i, gen_model(rng)))
 
@@ -499,7 +537,8 @@ def run(ctx):
     sw = Sweeper(ctx, impl, {}, 8 if thorough else 6)
     nsizes = {}
     for idx, (name, lines) in enumerate(models):
-        nsizes[name] = sweep_model(ctx, sw, name, lines, 2, thorough and idx in (0, 1, len(models) - 1), rng, fails, traces, hist)
+        nsizes[name] = sweep_model(ctx, sw, name, lines, 2 if thorough else 1, thorough and idx in (1, 2, len(models) - 1), rng, fails,
+                                   traces, hist, scan=66 if thorough else 21, budget=6000 if thorough else 650)
     if thorough:
         asan = ctx.harness("harness/c/c20_exhaust.c", "c20_exhaust", variant="asan", deps=["harness/mjbuild.h"])
         if asan:
@@ -516,6 +555,7 @@ def run(ctx):
     if hist.get("skipped-models"):
         ctx.extra["sweep_skipped_models"] = hist["skipped-models"]
     seen = {}
+    nst = 2 if thorough else 1
     for f in fails:
         seen.setdefault(f["key"], []).append(f)
     by_name = dict(models)
@@ -524,9 +564,9 @@ def run(ctx):
         mname = f["model"].replace("[asan]", "")
         ctx.oracle_failure(key, f["what"], {
             "model": f["model"], "narena": f["narena"], "other_failing_sizes_same_key": sorted({(x["model"], x["narena"]) for x in fl[1:]})[:30],
-            "description": by_name.get(mname), "nsteps": 2,
-            "replay": "printf 'model m\\n<description lines>\\nend\\nsweep 2 0 %d\\n' | <c20_exhaust harness>: the child runs "
-                      "mj_makeData with m->narena = %d and two mj_step" % (f["narena"], f["narena"])})
+            "description": by_name.get(mname), "nsteps": nst,
+            "replay": "printf 'model m\\n<description lines>\\nend\\nsweep %d 0 %d\\n' | <c20_exhaust harness>: the child runs "
+                      "mj_makeData with m->narena = %d and %d mj_step" % (nst, f["narena"], f["narena"], nst)})
     if traces:
         ctx.sample({"sweep": "model %s narena %d" % (models[0][0], traces[0][0]), "last_alloc": traces[0][1:]})
 
